@@ -1458,5 +1458,5 @@ vf_driver vf_drv = {
     .count = count,
     .run = run,
     .init = init,
-    .timeout_s = 10.0,
+    .timeout_s = 40.0,
 };
